@@ -45,6 +45,7 @@ RULE += (' Also: a chain closed before its first item has closed the handles it 
 RULE += (' Also: sum over a handle whose first item cannot be added stops at that item.')
 RULE += (' Also: an ended scope context cannot be entered a second time.')
 RULE += (' Also: the handle zipped with a class iterator that has nothing to close; a set built from a chain whose first element is unhashable.')
+RULE += (' Also: the handle merged after a source that compares equal to everything.')
 ASSUMPTIONS = ["laziness of the tools themselves is C05's concern; here the stdlib twin predicts how many items a tool takes",
                "athrow on a LIVE handle is not part of the property's operation list and is not generated; athrow on a closed handle is"]
 EXHAUSTIVE_SUBSPACES = 'all histories of length <= 3 (thorough: 4) over a 13-operation alphabet'
@@ -86,6 +87,19 @@ class _bare:
             return next(self._it)
         except StopIteration:
             raise StopAsyncIteration from None
+
+
+class _wild(_bare):
+    """A closeable class-based source that compares equal to anything (and hashes like nothing in particular)."""
+
+    def __eq__(self, other):
+        return True
+
+    def __hash__(self):
+        return 0
+
+    async def aclose(self):
+        self._it = iter(())
 
 
 class _Thrown(Exception):
@@ -279,6 +293,9 @@ TOOLS = {
     "dict_rejects_item": ("agg", lambda h: A.dict(h), lambda it: dict(it)),
     "dict_rejects_later_item": ("agg", lambda h: A.dict(A.chain([(0, 0)], h)), lambda it: dict(itertools.chain([(0, 0)], it))),
     # the handle next to a class-based iterator that has nothing to close: the handle is closed all the same
+    # the handle merged after a source that considers itself equal to everything (a wildcard record stream)
+    "merge_after_wildcard_source": ("iter", lambda h: A.merge(_wild([Item(0, "w0"), Item(9, "w9")]), h, key=lambda x: x.key),
+                                    lambda it: heapq.merge([Item(0, "w0"), Item(9, "w9")], it, key=lambda x: x.key)),
     "zip_with_bare_source": ("iter", lambda h: A.zip(h, _bare([7, 8, 9])), lambda it: zip(it, [7, 8, 9])),
     "zip_bare_source_first": ("iter", lambda h: A.zip(_bare([7, 8]), h), lambda it: zip([7, 8], it)),
     "set_rejects_first": ("agg", lambda h: A.set(A.chain([[0]], h)), lambda it: set(itertools.chain([[0]], it))),
